@@ -75,7 +75,7 @@ def main():
             t0 = time.time()
             cmd = [os.path.join(VERIF, "vchk"), c, "--tier", a.tier, "--no-evidence"] + (["--only", a.only] if a.only else [])
             rc, out = sh(cmd, cwd=VERIF, env=dict(os.environ, VERIF_REPO=wt), timeout=7200)
-            lines = [l for l in out.splitlines() if l.startswith(("VIOLATION", "MACHINERY", "INCONCLUSIVE", "KNOWN"))]
+            lines = sorted([l for l in out.splitlines() if l.startswith(("VIOLATION", "MACHINERY", "INCONCLUSIVE", "KNOWN"))], key=lambda l: not l.startswith("VIOLATION"))
             res[c + ":" + a.tier] = {"exit": rc, "lines": [l[:300] for l in lines[:8]], "wall_s": round(time.time() - t0), "summary": next((l for l in out.splitlines() if l.startswith(c + " tier=")), "")}
             print("check %s -> exit %d (%ds)\n   %s" % (c, rc, time.time() - t0, "\n   ".join(l[:200] for l in lines[:4])))
         meta["detected_by"] = sorted({k.split(":")[0] for k, v in res.items() if v["exit"] == 1})
